@@ -11,7 +11,7 @@ DEMO_REL="$(tr -d '\n' < "$SRC/DEMO_PATH.txt")"
 DEMO_FILE="$(ls "$SRC"/*_test.go | head -1)"
 PKG="./$(dirname "$DEMO_REL")/"
 OUT=/verif/seeded/$DEST; mkdir -p "$OUT"
-cp "$SRC/patch.diff" "$OUT/patch.diff"; cp "$DEMO_FILE" "$OUT/$(basename "$DEMO_REL")"; cp "$SRC/DEMO_PATH.txt" "$OUT/"; cp "$SRC/meta.json" "$OUT/author_meta.json" 2>/dev/null
+cp "$SRC/patch.diff" "$OUT/patch.diff"; cp "$DEMO_FILE" "$OUT/$(basename "$DEMO_REL")"; cp "$SRC/DEMO_PATH.txt" "$OUT/"; if [ ! -f "$SRC/author_meta.json" ]; then cp "$SRC/meta.json" "$OUT/author_meta.json" 2>/dev/null; fi
 RUNPAT="$(grep -o 'func Test[A-Za-z0-9_]*' "$DEMO_FILE" | sed 's/func //' | paste -sd'|')"
 cp "$DEMO_FILE" "$W/$DEMO_REL"
 ( cd "$W" && go test -vet=off -count=1 -run "^($RUNPAT)\$" "$PKG" ) > "$OUT/demo_without_change.log" 2>&1; r0=$?
